@@ -116,6 +116,8 @@ func corruptions(b []byte, dense bool) [][]byte {
 func run(c *vf.Ctx) {
 	c.Rule("full grid: secretbox {key classes} x {nonce classes} x every message length 0..L plus 1000,2000,4096,16384 x out-argument mode {nil, prefix, prefix+spare capacity, prefix+EXACT capacity, prefix+capacity one short} (spare capacity holds old bytes); " +
 		"every argument (key, nonce, key pair, message, box) is a private copy that must be unchanged after the call and is wiped before the result is compared; " +
+		"array arguments that are the SAME array: box.Precompute with sharedKey==privateKey, sharedKey==peersPublicKey, peersPublicKey==privateKey and all three, for all ordered key-pair combinations, every special peer key and in place on GenerateKey results; " +
+		"input arrays/slices sharing memory (nonce = key[8:32], key/nonce/out/message adjacent in one backing array, peersPublicKey==privateKey for box.Seal/Open, sk||pk in one array for OpenAnonymous, message inside the sign key array, auth key==message==digest array) x key classes x lengths {0,1,31,32,33,64,65,200}, model computed from copies; " +
 		"long messages 2^k+{-1,0,1,31,32,33,95,96,97} for k=16..22 (24 thorough) through secretbox Seal/Open, box Seal/Open, SealAnonymous/OpenAnonymous, 2^k+{-1,0,1} (k even) through sign and auth; " +
 		"box: all ordered pairs of key-pair classes x nonce classes x lengths, plus every small-order/non-canonical/bit-255 peer key; sealed boxes: recipient classes x lengths with a deterministic rand; " +
 		"sign: seed classes x every length 0..LS; auth: key classes x every length 0..LA. Open/Verify: model-produced value accepted, every single-byte corruption (dense for short inputs) and truncation/extension rejected. " +
@@ -379,6 +381,201 @@ func run(c *vf.Ctx) {
 			}
 			c.Nontrivial("special/" + s.name)
 		}
+	}
+	// 2b'. ARRAY arguments that are the same array: Precompute(sharedKey, peersPublicKey, privateKey) with
+	// every aliasing pattern of its three *[32]byte parameters (dst==priv, dst==peer, peer==priv, all three).
+	// curve25519.ScalarMult and the in-place HSalsa20 both tolerate dst == input, so does libsodium's
+	// crypto_box_beforenm; the model value is computed from COPIES of the values.
+	selfShared := make([][32]byte, len(pairs)) // peer == priv: the private key bytes used as peer point too
+	c.ParallelFor(len(pairs), func(a int) {
+		selfShared[a], _ = naclref.BoxBeforeNM(pairs[a].sk, pairs[a].sk)
+	})
+	precomputeAliased := func(peer, sk [32]byte, want [32]byte, det map[string]any) {
+		// dst == privateKey
+		k, pc := sk, peer
+		pan, _, _ := vf.Protect(func() { box.Precompute(&k, &pc, &k) })
+		c.Eval(1)
+		if pan || k != want || pc != peer {
+			det["got"] = fmt.Sprintf("%x", k)
+			c.Violation("box.Precompute with sharedKey == privateKey (same array) != HSalsa20(X25519(sk, pk), 0)", det)
+		}
+		// dst == peersPublicKey
+		k, sc := peer, sk
+		pan, _, _ = vf.Protect(func() { box.Precompute(&k, &k, &sc) })
+		c.Eval(1)
+		if pan || k != want || sc != sk {
+			det["got"] = fmt.Sprintf("%x", k)
+			c.Violation("box.Precompute with sharedKey == peersPublicKey (same array) != HSalsa20(X25519(sk, pk), 0)", det)
+		}
+	}
+	for a := range pairs {
+		for b := range pairs {
+			precomputeAliased(pairs[b].pk, pairs[a].sk, shared[[2]int{a, b}], map[string]any{"sk": pairs[a].name, "peer": pairs[b].name, "model": fmt.Sprintf("%x", shared[[2]int{a, b}])})
+		}
+		// peer == priv (inputs only), and all three the same array
+		x := pairs[a].sk
+		var dst [32]byte
+		for j := range dst {
+			dst[j] = 0xA5
+		}
+		pan, _, _ := vf.Protect(func() { box.Precompute(&dst, &x, &x) })
+		c.Eval(1)
+		det := map[string]any{"sk": pairs[a].name, "model": fmt.Sprintf("%x", selfShared[a])}
+		if pan || dst != selfShared[a] || x != pairs[a].sk {
+			c.Violation("box.Precompute with peersPublicKey == privateKey (same array) != HSalsa20(X25519(sk, pk), 0)", det)
+		}
+		pan, _, _ = vf.Protect(func() { box.Precompute(&x, &x, &x) })
+		c.Eval(1)
+		if pan || x != selfShared[a] {
+			det["got"] = fmt.Sprintf("%x", x)
+			c.Violation("box.Precompute with all three arguments the same array != HSalsa20(X25519(sk, pk), 0)", det)
+		}
+		c.Nontrivial(fmt.Sprintf("alias-precompute/%d", a))
+	}
+	for _, s := range specials {
+		for _, a := range []int{0, 4, len(pairs) - 1} {
+			want, _ := naclref.BoxBeforeNM(s.pk, pairs[a].sk)
+			precomputeAliased(s.pk, pairs[a].sk, want, map[string]any{"sk": pairs[a].name, "peer": s.name})
+		}
+	}
+	// keys straight from GenerateKey, replaced in place by the derived key (k = Precompute(k, peer, k))
+	{
+		pubA, privA, _ := box.GenerateKey(vf.NewRand("c10-alias-A"))
+		pubB, privB, _ := box.GenerateKey(vf.NewRand("c10-alias-B"))
+		want, _ := naclref.BoxBeforeNM(*pubB, *privA)
+		pb := *pubB
+		pan, _, _ := vf.Protect(func() {
+			box.Precompute(privA, pubB, privA) // Alice: secret replaced by the shared key
+			box.Precompute(pubA, pubA, privB)  // Bob: Alice's public key replaced by the shared key
+		})
+		c.Eval(2)
+		if pan || *privA != want || *pubA != want || *pubB != pb {
+			c.Violation("box.Precompute in place on GenerateKey results: the two parties do not get HSalsa20(X25519(sk, pk), 0)", nil)
+		}
+	}
+	// 2b''. secretbox / box / sign / auth: array (and slice) INPUT arguments that share memory with each other or sit
+	// in the same backing array as out. Inputs are only read, so every such layout is legal; results = model from copies.
+	{
+		lens := []int{0, 1, 31, 32, 33, 64, 65, 200}
+		c.ParallelFor(len(keys)*len(lens), func(i int) {
+			ki, n := i/len(lens), lens[i%len(lens)]
+			// one backing array: [key 32 bytes, whose last 24 bytes are ALSO the nonce][out region][message]
+			kv := a32(keys[ki])
+			var nv24 [24]byte
+			copy(nv24[:], kv[8:])
+			msg := pickMsg(ki, n)
+			want := naclref.SecretboxSeal(msg, nv24, kv)
+			buf := make([]byte, 32+n+16+n+8)
+			copy(buf, kv[:])
+			copy(buf[32+n+16:], msg)
+			key := (*[32]byte)(buf[0:32])
+			nonce := (*[24]byte)(buf[8:32])
+			m := buf[32+n+16 : 32+n+16+n]
+			det := map[string]any{"len": n, "keyclass": ki, "layout": "nonce = key[8:32] (same memory); key, out, message adjacent in one backing array"}
+			var got, got2, back, back2 []byte
+			var ok, ok2 bool
+			pan, val, _ := vf.Protect(func() {
+				got = secretbox.Seal(buf[32:32:32+n+16], m, nonce, key)
+				got2 = box.SealAfterPrecomputation(nil, m, nonce, key)
+			})
+			c.Eval(2)
+			if pan || !bytes.Equal(got, want) || !bytes.Equal(got2, want) || *key != kv || !bytes.Equal(m, msg) {
+				det["panic"] = fmt.Sprint(val)
+				c.Violation("secretbox.Seal / box.SealAfterPrecomputation with nonce and key sharing memory != crypto_secretbox_easy", det)
+			}
+			// Open: box, then key+nonce, then out, adjacent
+			buf2 := make([]byte, n+16+32+n)
+			copy(buf2, want)
+			copy(buf2[n+16:], kv[:])
+			key = (*[32]byte)(buf2[n+16 : n+48])
+			nonce = (*[24]byte)(buf2[n+24 : n+48])
+			pan, val, _ = vf.Protect(func() {
+				back, ok = secretbox.Open(buf2[n+48:n+48:n+48+n], buf2[:n+16], nonce, key)
+				back2, ok2 = box.OpenAfterPrecomputation(nil, buf2[:n+16], nonce, key)
+			})
+			c.Eval(2)
+			if pan || !ok || !ok2 || !bytes.Equal(back, msg) || !bytes.Equal(back2, msg) || *key != kv || !bytes.Equal(buf2[:n+16], want) {
+				det["panic"] = fmt.Sprint(val)
+				c.Violation("secretbox.Open / box.OpenAfterPrecomputation with nonce and key sharing memory rejects or mis-decrypts", det)
+			}
+			// box.Seal / Open / sealed boxes with peersPublicKey == privateKey (one array for both)
+			p := pairs[ki%len(pairs)]
+			x := p.sk
+			nn := a24(nonces[ki%len(nonces)])
+			wantB := naclref.SecretboxSeal(msg, nn, selfShared[ki%len(pairs)])
+			pan, val, _ = vf.Protect(func() {
+				got = box.Seal(nil, msg, &nn, &x, &x)
+				back, ok = box.Open(nil, wantB, &nn, &x, &x)
+			})
+			c.Eval(2)
+			if pan || !bytes.Equal(got, wantB) || !ok || !bytes.Equal(back, msg) || x != p.sk {
+				det["panic"] = fmt.Sprint(val)
+				c.Violation("box.Seal/Open with peersPublicKey == privateKey (same array) != crypto_box_easy", det)
+			}
+			// OpenAnonymous with the recipient's keys inside one 64-byte array (sk || pk, the libsodium keypair layout)
+			esk := a32(keys[(ki+1)%len(keys)])
+			wantS := naclref.SealedBoxSeal(msg, p.pk, esk)
+			var kp [64]byte
+			copy(kp[:32], p.sk[:])
+			copy(kp[32:], p.pk[:])
+			pan, val, _ = vf.Protect(func() {
+				back, ok = box.OpenAnonymous(nil, wantS, (*[32]byte)(kp[32:]), (*[32]byte)(kp[:32]))
+			})
+			c.Eval(1)
+			if pan || !ok || !bytes.Equal(back, msg) {
+				det["panic"] = fmt.Sprint(val)
+				c.Violation("box.OpenAnonymous with both keys in one array rejects or mis-decrypts a crypto_box_seal box", det)
+			}
+			// sign: the message IS (part of) the private key array / the public key array
+			seed := a32(keys[ki])
+			spk, ssk := naclref.SignKeyPair(seed)
+			skc, pkc := ssk, spk
+			mlen := n
+			if mlen > 64 {
+				mlen = 64
+			}
+			wantG := naclref.Sign(seed, ssk[64-mlen:])
+			pan, val, _ = vf.Protect(func() {
+				got = sign.Sign(nil, skc[64-mlen:], &skc) // signs the tail of the key array (= public key bytes)
+			})
+			c.Eval(1)
+			if pan || !bytes.Equal(got, wantG) || skc != ssk {
+				det["panic"] = fmt.Sprint(val)
+				c.Violation("sign.Sign with the message inside the private-key array != crypto_sign", det)
+			}
+			// signed message and public key in one backing array
+			sb := append(append([]byte(nil), wantG...), spk[:]...)
+			pan, val, _ = vf.Protect(func() { back, ok = sign.Open(nil, sb[:len(wantG)], (*[32]byte)(sb[len(wantG):])) })
+			c.Eval(1)
+			if pan || !ok || !bytes.Equal(back, ssk[64-mlen:]) || pkc != spk {
+				det["panic"] = fmt.Sprint(val)
+				c.Violation("sign.Open with signed message and public key in one backing array rejects or mangles a crypto_sign message", det)
+			}
+			// auth: message == key array, digest slice == a Sum result array, key == an earlier Sum result
+			ak := kv
+			wantA := naclref.Auth(kv[:], kv)
+			var ga *[32]byte
+			pan, val, _ = vf.Protect(func() { ga = auth.Sum(ak[:], &ak) })
+			c.Eval(1)
+			if pan || *ga != wantA || ak != kv {
+				c.Violation("auth.Sum with the message being the key array != crypto_auth", det)
+				return
+			}
+			wantA2 := naclref.Auth(wantA[:], wantA) // chained: the authenticator array is key AND message of the next call
+			var gb *[32]byte
+			var okv, okw bool
+			pan, val, _ = vf.Protect(func() {
+				gb = auth.Sum(ga[:], ga)
+				okv = auth.Verify(gb[:], ga[:], ga)
+				okw = auth.Verify(ga[:], ga[:], ga) // digest == message == key: not the authenticator
+			})
+			c.Eval(3)
+			if pan || *gb != wantA2 || !okv || okw || *ga != wantA {
+				det["panic"] = fmt.Sprint(val)
+				c.Violation("auth.Sum/Verify with key, message and digest sharing one array != crypto_auth", det)
+			}
+			c.Nontrivial(fmt.Sprintf("alias-inputs/%d/%d", ki, n))
+		})
 	}
 	// 2c. Seal / Open / AfterPrecomputation over pairs x nonces x lengths
 	boxLens := lengths
